@@ -77,13 +77,59 @@ def tt_wire(t):
     return [cats, cg.parse(t["sum"]).t(), [0, 0]]
 
 
+def finer_bases(rng, t, c=2):
+    """give most rate bases of a generated summary one or two more decimals than the currency has, so that
+    recalculating it (ctt operand) leaves precise figures that differ from the presented ones"""
+    t = copy.deepcopy(t)
+    for ct in t["categories"]:
+        for r in ct["rates"]:
+            if rng.random() < 0.8:
+                extra = rng.choice([1, 1, 2])
+                a = cg.parse(r["base"])
+                v = a.t()[0] * 10 ** extra + rng.randrange(10 ** extra) * (1 if a.t()[0] >= 0 else -1)
+                r["base"] = cg.fmt(cg.A(v, c + extra))
+    return t
+
+
+# ---- corpus: witnesses of repaired defects, exercised on every run --------------------------------
+def _one(code, pct, base, amount, retained=False):
+    ct = {"code": code, "rates": [{"base": base, "percent": pct, "amount": amount}], "amount": amount}
+    if retained:
+        ct["retained"] = True
+    return ct
+
+
+W_VAT = {"categories": [_one("VAT", "21%", "100.00", "21.00")], "sum": "21.00"}
+# C20-merge-shares-operand-rows (a): the operand lists the same category twice; Merge appended the first
+# occurrence with the operand's own rate objects and then added the second occurrence into them
+W_IRPF2 = {"categories": [_one("IRPF", "15%", "100.00", "15.00", True), _one("IRPF", "15%", "100.00", "15.00", True)], "sum": "-30.00"}
+# the same without a repeated category: the result shared the operand's rates (recalculating the result rewrote them)
+W_IRPF = {"categories": [_one("IRPF", "15%", "100.00", "14.00", True)], "sum": "-14.00"}
+# C20-merge-shares-operand-rows (b), precise figures: base 100.004 recalculated in EUR, rule precise: precise 21.001 / presented 21.00
+W_FINE = {"categories": [_one("VAT", "21%", "100.004", "21.00")], "sum": "21.00"}
+CORPUS = [
+    ("merge", [("tt", W_VAT), ("tt", W_IRPF2)]),
+    ("merge", [("tt", W_VAT), ("tt", W_IRPF)]),
+    ("merge", [("ctt", [0, 2, W_FINE]), ("ctt", [0, 2, W_FINE])]),
+    ("merge", [("tt", W_VAT), ("ctt", [0, 2, W_FINE])]),
+    ("merge", [("ctt", [0, 2, W_FINE]), ("tt", W_VAT)]),
+    ("merge", [("ctt", [0, 2, W_FINE]), ("tt", W_VAT), ("ctt", [1, 2, W_FINE]), ("tt", W_IRPF)]),
+    ("negate", [("ctt", [0, 2, W_FINE])]),
+    ("merge_negate", [("ctt", [0, 2, W_FINE])]),
+]
+
+
 def operand_lines(ops):
-    """ops: list of ('doc', invoice) | ('tt', total) -> (go args, model args)"""
+    """ops: list of ('doc', invoice) | ('tt', total) | ('ctt', [rule, c, total]) -> (go args, model args)"""
     g, m = [], []
     for kind, x in ops:
         if kind == "doc":
             g.append("( doc %s )" % w(json.dumps(x)))
             m.append("( doc %s )" % w(cg.to_wire(x)))
+        elif kind == "ctt":
+            rule, cdec, t = x
+            g.append("( ctt %d %d %s )" % (rule, cdec, w(json.dumps(t))))
+            m.append("( ctt %d %d %s )" % (rule, cdec, " ".join(w(y) for y in tt_wire(t))))
         else:
             g.append("( tt %s )" % w(json.dumps(x)))
             m.append("( tt %s )" % " ".join(w(y) for y in tt_wire(x)))
@@ -105,6 +151,30 @@ def as_map(res):
             return None, None
         cats[ct[0]] = {"amount": q(ct[3]), "surcharge": q(ct[4]), "groups": groups, "retained": ct[1]}
     return cats, q(res[2])
+
+
+def precise_of(res):
+    """projected summary -> (PreciseSum(), {category code: PreciseAmount()}) as exact fractions"""
+    return q(res[3]), {ct[0]: q(p) for ct, p in zip(res[1], res[4])}
+
+
+def expect_precise(ps):
+    """left fold of the operands' precise figures [(sum, {code: amount})]; a figure whose running total passes
+    through exactly zero is left unjudged (None): the accessors read zero as 'unset'"""
+    tot, tot_ok = ps[0][0], True
+    cats = {k: [v, True] for k, v in ps[0][1].items()}
+    for s_, cs in ps[1:]:
+        tot += s_
+        if tot == 0:
+            tot_ok = False
+        for k, v in cs.items():
+            if k in cats:
+                cats[k][0] += v
+                if cats[k][0] == 0:
+                    cats[k][1] = False
+            else:
+                cats[k] = [v, True]
+    return (tot if tot_ok else None), {k: (v if ok_ else None) for k, (v, ok_) in cats.items()}
 
 
 def expect_merge(maps):
@@ -141,6 +211,9 @@ def run(c):
     n = 3000 if quick else 120000
 
     def operand():
+        if rng.random() < 0.2:
+            # a loaded summary with finer bases, recalculated (as DocumentRef.Calculate does): unexported precise figures
+            return ("ctt", [rng.choice([0, 0, 1]), 2, finer_bases(rng, gen_tt(rng))])
         if rng.random() < 0.35:
             for _ in range(20):
                 d = g.doc(regimes=("ES",), force_rule=rng.choice([cg.PRECISE, cg.CURRENCY]))
@@ -155,7 +228,7 @@ def run(c):
                 if okd and r != "calc-error" and r[0] == b"ok" and r[1][15]:
                     return ("doc", d)
         return ("tt", gen_tt(rng))
-    cases = []
+    cases = list(CORPUS)
     for i in range(n):
         k = i % 5
         if k == 0:
@@ -203,12 +276,15 @@ def run(c):
         if broken:
             mism += 1
         if is_err(gv):
-            if is_err(gv, "mutated") and shown < 3:
+            if (is_err(gv, "mutated") or is_err(gv, "shared")) and shown < 3:
                 shown += 1
-                c.report("an operand was altered by %s" % op_, {"operation": op_, "operands": ops, "clause": "neither operation alters its operands"})
+                how = ("an operand was altered by %s" % op_ if is_err(gv, "mutated") else
+                       "the result of %s shares rows with an operand: recalculating the result altered the operand" % op_)
+                c.report(how, {"operation": op_, "operands": ops, "implementation": gline, "clause": "neither operation alters its operands"})
             continue
         maps = []
         sums = []
+        precs = []
         wf = True
         for o in ops:
             pv = proj[json.dumps(o, sort_keys=True)]
@@ -221,12 +297,20 @@ def run(c):
                 break
             maps.append(m_)
             sums.append(s_)
+            precs.append(precise_of(pv))
         if not wf:
             continue
         got, gsum = as_map(gv)
         if got is None:
             c.report("%s produced a summary with duplicate categories or group keys" % op_, {"operation": op_, "operands": ops, "implementation": gline})
             continue
+        gps, gpc = precise_of(gv)
+        if op_ == "negate":
+            wps, wpc = -precs[0][0], {k: -v for k, v in precs[0][1].items()}
+        elif op_ == "merge_negate":
+            wps, wpc = None, {}       # cancels exactly: the accessors fall back on the presented (zero) figures, judged below
+        else:
+            wps, wpc = expect_precise(precs)
         if op_ == "negate":
             want = {k: {"amount": -v["amount"], "surcharge": None if v["surcharge"] is None else -v["surcharge"],
                         "groups": {gk: (-b, -a, -s) for gk, (b, a, s) in v["groups"].items()}} for k, v in maps[0].items()}
@@ -246,6 +330,13 @@ def run(c):
                 shown += 1
                 c.report("%s: result is not the component-wise %s of the operands" % (op_, "negation" if "negate" == op_ else "sum"),
                          {"operation": op_, "operands": ops, "implementation": gline, "clause": clause})
+        elif (wps is not None and gps != wps) or any(v is not None and gpc.get(k) != v for k, v in wpc.items()):
+            if shown < 3:
+                shown += 1
+                c.report("%s: a precise figure (PreciseSum / PreciseAmount) of the result is not the %s of the operands'" % (op_, "negation" if "negate" == op_ else "sum"),
+                         {"operation": op_, "operands": ops, "implementation": gline, "expected_precise_sum": str(wps),
+                          "expected_precise_amounts": {k.decode(): str(v) for k, v in wpc.items()},
+                          "clause": "every amount of the result is the sum of the operands' (merging yields component-wise sums)"})
         elif broken and shown < 6:
             shown += 1
             c.report("correspondence broken: %s in the model differs from the implementation (no clause of the property fails on this case)" % op_,
@@ -286,8 +377,9 @@ def run(c):
         c.sample({"operation": op_, "operands": ops}, limit=3)
     if pay_cases:
         c.sample({"payment": pay_cases[0][0]}, limit=4)
-    c.cov["rule"] = ("summaries: calculated invoices' tax totals (real unexported state) and generated well-formed summaries (1-3 categories, retained or not, "
-                     "keyed/percent/exempt groups, surcharges, extensions, countries), negated, merged pairwise in both orders, in sequences of 3-5 and with their own "
+    c.cov["rule"] = ("summaries: a fixed corpus of witnesses of repaired defects, calculated invoices' tax totals (real unexported state), generated well-formed summaries "
+                     "(1-3 categories, retained or not, keyed/percent/exempt groups, surcharges, extensions, countries) as loaded and - with finer bases - as recalculated "
+                     "(unexported precise figures), negated, merged pairwise in both orders, in sequences of 3-5 and with their own "
                      "negation; payments with 1-8 debit/credit lines in 1-3 currencies with exchange rates and document tax summaries; distinct = distinct implementation results")
     c.cov["go_model_differences"] = mism
     if not proved:
